@@ -78,6 +78,14 @@ MUTANTS = [
          old='    step_size = std::isfinite(step_size) ? std::clamp(step_size, stpmin(), 1.0) : scalar_t(1);', new="    step_size = std::clamp(step_size, stpmin(), 1.0);"),
     dict(property="C07", name="get-initial-step-lower-bound-zero", rule="R-C07-7", file="src/lsearchk.cpp",
          old='    step_size = std::isfinite(step_size) ? std::clamp(step_size, stpmin(), 1.0) : scalar_t(1);', new="    step_size = std::isfinite(step_size) ? std::clamp(step_size, 0.0, 1.0) : scalar_t(1);"),
+    dict(property="C13", name="trial-value-weighted-by-fold-size", rule="R-C13-7", file="src/machine/result.cpp",
+         old='    auto sum_mean = 0.0;\n    for (tensor_size_t fold = 0, folds = this->folds(); fold < folds; ++fold)\n    {\n        const auto stats = this->stats(trial, fold, split, value);\n        sum_mean += stats.m_mean;\n    }\n\n    return sum_mean / static_cast<scalar_t>(folds());', new='    auto sum_mean  = 0.0;\n    auto sum_count = 0.0;\n    for (tensor_size_t fold = 0, folds = this->folds(); fold < folds; ++fold)\n    {\n        const auto stats = this->stats(trial, fold, split, value);\n        sum_mean += stats.m_mean * stats.m_count;\n        sum_count += stats.m_count;\n    }\n\n    return sum_mean / sum_count;'),
+    dict(property="C13", name="trial-value-skips-first-fold", rule="R-C13-7", file="src/machine/result.cpp",
+         old='    auto sum_mean = 0.0;\n    for (tensor_size_t fold = 0, folds = this->folds(); fold < folds; ++fold)\n    {\n        const auto stats = this->stats(trial, fold, split, value);\n        sum_mean += stats.m_mean;\n    }\n\n    return sum_mean / static_cast<scalar_t>(folds());', new='    auto sum_mean = 0.0;\n    for (tensor_size_t fold = 1, folds = this->folds(); fold < folds; ++fold)\n    {\n        const auto stats = this->stats(trial, fold, split, value);\n        sum_mean += stats.m_mean;\n    }\n\n    return sum_mean / static_cast<scalar_t>(folds());'),
+    dict(property="C14", name="flatten-mask-stale-flag", rule="R-C14-4", file="src/dataset/stats.cpp",
+         old='    for (tensor_size_t column = 0; column < enable_scaling.size(); ++column)\n    {\n        const auto ifeature    = dataset.column2feature(column);\n        const auto feature     = dataset.feature(ifeature);\n        const auto isclass     = feature.is_sclass() || feature.is_mclass();\n        enable_scaling(column) = isclass ? 0x00 : 0x01;\n    }', new='    auto scalable       = false;\n    for (tensor_size_t column = 0, ifeature = -1; column < enable_scaling.size(); ++column)\n    {\n        if (const auto jfeature = dataset.column2feature(column); jfeature != ifeature)\n        {\n            ifeature = jfeature;\n            if (const auto feature = dataset.feature(ifeature); !feature.is_sclass() && !feature.is_mclass())\n            {\n                scalable = true;\n            }\n        }\n        enable_scaling(column) = scalable ? 0x01 : 0x00;\n    }'),
+    dict(property="C16", name="reshape-zero-keeps-source-dimension", rule="R-C16-1", file="include/nano/tensor/tensor.h", tu="src/core/sampling.cpp",
+         old='        auto dimensions = ::nano::make_dims(sizes...);\n        for (auto& dim : dimensions)\n        {\n            assert(dim == -1 || dim >= 0);', new='        auto dimensions = ::nano::make_dims(sizes...);\n        for (size_t idim = 0U; idim < std::min(dimensions.size(), trank); ++idim)\n        {\n            if (dimensions[idim] == 0)\n            {\n                dimensions[idim] = dims()[idim];\n            }\n        }\n        for (auto& dim : dimensions)\n        {\n            assert(dim == -1 || dim >= 0);'),
     dict(property="C17", name="stop-set-outside-lock", rule="R-C17-1", file="src/core/parallel.cpp",
          old="""    {
         const std::scoped_lock lock(m_queue.m_mutex);
@@ -1251,6 +1259,10 @@ BENIGN = [
         step_size = 1.0;
     }
     step_size = std::min(std::max(step_size, stpmin()), 1.0);"""),
+    dict(property="C13", name="trial-value-backward-loop", file="src/machine/result.cpp",
+         old='    auto sum_mean = 0.0;\n    for (tensor_size_t fold = 0, folds = this->folds(); fold < folds; ++fold)\n    {\n        const auto stats = this->stats(trial, fold, split, value);\n        sum_mean += stats.m_mean;\n    }\n\n    return sum_mean / static_cast<scalar_t>(folds());', new='    const auto nfolds = this->folds();\n    scalar_t   total  = 0;\n    for (tensor_size_t f = nfolds; f > 0; --f)\n    {\n        total = total + this->stats(trial, f - 1, split, value).m_mean;\n    }\n    const auto average = total / static_cast<scalar_t>(nfolds);\n    return average;'),
+    dict(property="C14", name="flatten-mask-hoisted-lookup", file="src/dataset/stats.cpp",
+         old='    for (tensor_size_t column = 0; column < enable_scaling.size(); ++column)\n    {\n        const auto ifeature    = dataset.column2feature(column);\n        const auto feature     = dataset.feature(ifeature);\n        const auto isclass     = feature.is_sclass() || feature.is_mclass();\n        enable_scaling(column) = isclass ? 0x00 : 0x01;\n    }', new='    auto scalable       = false;\n    for (tensor_size_t column = 0, ifeature = -1; column < enable_scaling.size(); ++column)\n    {\n        if (const auto jfeature = dataset.column2feature(column); jfeature != ifeature)\n        {\n            ifeature = jfeature;\n            const auto feature = dataset.feature(ifeature);\n            scalable           = !feature.is_sclass() && !feature.is_mclass();\n        }\n        enable_scaling(column) = scalable ? 0x01 : 0x00;\n    }'),
     dict(property="C07", name="get-descent-test-inlined", file="src/lsearchk.cpp",
          old="    if (!state.has_descent(descent))", new="    if (const auto dg0 = state.dg(descent); !(dg0 < 0.0))"),
     dict(property="C07", name="lemarechal-swap-operands", file="src/lsearchk/lemarechal.cpp",
